@@ -133,6 +133,15 @@ func scenarios(th bool) []scenario {
 	}
 	sub := func(n string) op { return op{K: "sub", U: S(n)} }
 	seq, rd, read := op{K: "seq"}, op{K: "rd"}, op{K: "read"}
+	// the request's context ends while its backend read is in flight (the backend still answers):
+	// whatever the front end then does, a 200 carries the exact bytes
+	for _, h := range [][]op{{sub("L1"), sub("P1"), sub("L2"), seq, read}, {sub("L0"), sub("L3"), sub("PP"), seq, rd, rd}} {
+		for _, c := range []string{"noop", "lru1", "lruN", "advH"} {
+			for k := 1; k <= 8; k++ {
+				out = append(out, scenario{Class: "ctxend", Clients: [][]op{h}, Cache: c, Bound: 0, CtxEnd: k})
+			}
+		}
+	}
 	// a stored row that is still valid DER but is not the row that was hashed
 	for _, h := range [][]op{{sub("L1"), seq, rd}, {sub("P1"), seq, rd}, {sub("L0"), sub("L3"), seq, read}} {
 		for _, c := range []string{"noop", "advH", "lru1"} {
@@ -340,6 +349,7 @@ func TestCheck(t *testing.T) {
 	for c, n := range perClass {
 		r.Set("executions_"+c, n.Load())
 	}
+	twoLogs(t, r)
 	r.Set("trivial_outcomes_not_counted", trivial.Load())
 	r.Set("executions", exec.Load())
 	r.Set("decision_points", pts.Load())
